@@ -47,19 +47,27 @@ func (l *IDNNotNFC) CheckApplies(c *x509.Certificate) bool {
 }
 
 func (l *IDNNotNFC) Execute(c *x509.Certificate) *lint.LintResult {
+	// A label that cannot be converted to unicode cannot be judged, but it must
+	// not hide a label (of this or another name) that is not in NFC: the
+	// verdict may not depend on the order of the names.
+	unconvertible := false
 	for _, dns := range c.DNSNames {
 		labels := strings.Split(dns, ".")
 		for _, label := range labels {
 			if util.HasXNLabelPrefix(label) {
 				unicodeLabel, err := util.IdnaToUnicode(label)
 				if err != nil {
-					return &lint.LintResult{Status: lint.NA}
+					unconvertible = true
+					continue
 				}
 				if !norm.NFC.IsNormalString(unicodeLabel) {
 					return &lint.LintResult{Status: lint.Error}
 				}
 			}
 		}
+	}
+	if unconvertible {
+		return &lint.LintResult{Status: lint.NA}
 	}
 	return &lint.LintResult{Status: lint.Pass}
 }
